@@ -524,10 +524,90 @@ def concurrent_case(seed: int, via_broker: bool) -> Optional[dict]:
     return None
 
 
+def close_race_case(seed: int) -> Optional[dict]:
+    """`PubSub.close()` in flight (it suspends between keys) while other tasks subscribe to a new or an existing key and publish:
+    every subscription that started before close() returned must terminate, publishing must not raise, and a key used again
+    afterwards starts a new lifetime."""
+    from nextline.utils.pubsub.broker import PubSub
+    rng = random.Random(seed)
+    chooser = ctl.Rand(random.Random(seed * 11 + 5))
+    nkeys = rng.randint(1, 3)
+    late_key = rng.choice(['new', 'k0'])
+    late_delay = rng.randint(0, 6)
+    pub_delay = rng.randint(0, 6)
+    msgs: list[str] = []
+    info: dict = {}
+
+    async def main() -> None:
+        broker = PubSub()
+        started: dict = {}
+        ended: dict = {}
+        before_close_returned: dict = {}
+        closed = [False]
+
+        async def subscriber(name: str, key: str) -> None:
+            agen = broker.subscribe(key, last=False)
+            started[name] = True
+            before_close_returned[name] = not closed[0]
+            async for _ in agen:
+                pass
+            ended[name] = True
+        subs = [asyncio.ensure_future(subscriber(f's{i}', f'k{i}')) for i in range(nkeys)]
+        while len(started) < nkeys:
+            await asyncio.sleep(0)
+        await asyncio.sleep(0)
+        for i in range(nkeys):
+            await broker.publish(f'k{i}', i)
+
+        async def late() -> None:
+            for _ in range(late_delay):
+                await asyncio.sleep(0)
+            await subscriber('late', late_key)
+
+        async def publisher() -> None:
+            for _ in range(pub_delay):
+                await asyncio.sleep(0)
+            try:
+                await broker.publish('k0', 99)
+            except BaseException as e:  # noqa
+                msgs.append(f'publish() while close() was in flight raised {type(e).__name__}: {e}')
+
+        async def closer() -> None:
+            await broker.close()
+            closed[0] = True
+        tl = asyncio.ensure_future(late())
+        tp = asyncio.ensure_future(publisher())
+        tc = asyncio.ensure_future(closer())
+        await tc
+        await tp
+        for _ in range(60):
+            await asyncio.sleep(0)
+        for name, early in before_close_returned.items():
+            if early and not ended.get(name):
+                msgs.append(f'subscription {name} started before close() returned and has not terminated '
+                            f'(keys {nkeys}, late subscriber on {late_key!r} after {late_delay} steps)')
+        info['late_started_before_close_returned'] = before_close_returned.get('late')
+        # whatever is still subscribed belongs to a new lifetime: a second close() ends it
+        await broker.close()
+        for _ in range(30):
+            await asyncio.sleep(0)
+        for t in subs + [tl]:
+            if not t.done():
+                msgs.append('a subscriber is still waiting after a second close()')
+                t.cancel()
+    try:
+        ctl.run(main, chooser)
+    except (Exception, ctl.StepBudgetExceeded) as e:  # noqa
+        return {'seed': seed, 'close_race': True, 'error': f'{type(e).__name__}: {e}', 'schedule': chooser.trace}
+    if msgs:
+        return {'seed': seed, 'close_race': True, 'messages': msgs, 'schedule': chooser.trace, 'info': info}
+    return None
+
+
 def _conc_shard(seeds: list) -> list:
     out = []
     for s, vb in seeds:
-        r = concurrent_case(s, vb)
+        r = close_race_case(s) if vb == 'close-race' else concurrent_case(s, vb)
         out.append((s, vb, r))
     return out
 
@@ -659,7 +739,7 @@ def run(chk: common.Check) -> None:
     with mp.get_context('fork').Pool(nshards) as pool:
         results = pool.map(_shard, shards)
         nconc = 300 if chk.tier == 'quick' else 5000
-        cs = [(chk.seed * 100003 + i, i % 2 == 1) for i in range(nconc)]
+        cs = [(chk.seed * 100003 + i, i % 2 == 1) for i in range(nconc)] + [(chk.seed * 100019 + i, 'close-race') for i in range(nconc)]
         conc = pool.map(_conc_shard, [cs[i::nshards] for i in range(nshards)])
     impl: dict[int, tuple[list[str], list[str]]] = {}
     for sh in results:
